@@ -543,6 +543,16 @@ func runC01Rest(c *Ctx) {
 	// R22 (shared with C18.R3): with the allocator the page that holds a DATA reply is released only after the reply has
 	// been written — released before, it is handed out again and the bytes on the wire are another packet's
 	c.withOnly("R3", "R22", func() { runC18(c) })
+	// round 8 shares: a failed write is latched (a torn DATA header swallows the next reply), the transfer methods hold
+	// the File exclusively incl. ReadFromWithConcurrency, worker counts and packet sizes at least 1, the offset reported
+	// with the source's error lies behind the chunk sent, the status a failing handler gets is not end-of-file
+	checkWriteFailureLatched(c, "R27")
+	c.withOnly("R1", "R28", func() { runC12(c) })
+	checkWorkerCountBounded(c, "R29")
+	checkSourceErrorBehindChunk(c, "R26")
+	if goos := goosOf(c.P.Cfg); goos != "windows" && goos != "plan9" {
+		c.withOnlyKeys("R3", "R30", []string{"EOF", "EIO"}, func() { runC05(c) })
+	}
 	checkMaxTxPacketOptions(c, "R23")
 	checkWriteChunkCountsOnlyAcknowledged(c, "R24")
 	checkAtMethodsUseTheirOffset(c, "R25")
